@@ -39,11 +39,12 @@ type c03cfg struct {
 	rstopped bool     // rollout: `rollout stop` was issued after the in-flight requests reached the rollout target (its targets still belong to the service)
 	shortTT  bool     // the service's target timeout (1s) is shorter than the drain timeout: it bounds the wait for response headers, not a drain
 	held     bool     // rollout-redeploy only: the service is paused, two requests (one per group) are held, the command runs, then resume
+	prefixes bool     // the service is bound to three path prefixes (/, /app, /app/v2) and the requests are spread over them
 	prior    string   // "timeout" | "clean": the targets were drained before (a pause cutting off a request at its deadline / a pause with a request finishing early), then resumed
 }
 
 func (c c03cfg) String() string {
-	return fmt.Sprintf("cmd=%s targets=%d rollout=%v inflight=[%s] late=[%s] sick=%v prior=%s", c.cmd, c.targets, c.rollout, strings.Join(c.inflight, ","), strings.Join(c.late, ","), c.sick, c.prior) + map[bool]string{true: " held=true"}[c.held] + map[bool]string{true: " target-timeout=1s"}[c.shortTT] + map[bool]string{true: " rollout-stopped"}[c.rstopped]
+	return fmt.Sprintf("cmd=%s targets=%d rollout=%v inflight=[%s] late=[%s] sick=%v prior=%s", c.cmd, c.targets, c.rollout, strings.Join(c.inflight, ","), strings.Join(c.late, ","), c.sick, c.prior) + map[bool]string{true: " held=true"}[c.held] + map[bool]string{true: " target-timeout=1s"}[c.shortTT] + map[bool]string{true: " rollout-stopped"}[c.rstopped] + map[bool]string{true: " three-prefixes"}[c.prefixes]
 }
 
 func c03Configs(tier string) []c03cfg {
@@ -74,6 +75,10 @@ func c03Configs(tier string) []c03cfg {
 				cfgs = append(cfgs, c03cfg{cmd: cmd, targets: 1, inflight: []string{"early", "never"}, prior: pr})
 				cfgs = append(cfgs, c03cfg{cmd: cmd, targets: 1, inflight: []string{"after"}, prior: pr})
 			}
+		}
+		// a service bound to several path prefixes, requests on each of them
+		for _, cmd := range []string{"redeploy", "pause", "stop"} {
+			cfgs = append(cfgs, c03cfg{cmd: cmd, targets: 1, inflight: []string{"early", "never", "early"}, late: []string{"quick", "quick", "quick"}, prefixes: true})
 		}
 		cfgs = append(cfgs, c03RolloutRedeploy(tier)...)
 		cfgs = append(cfgs, c03Streaming(tier)...)
@@ -233,6 +238,9 @@ func c03Scenario(c c03cfg) *Scenario {
 		w.AddTarget("rb:80")
 		dargs := func(targets []string) DeployArgs {
 			a := deployArgs("s1", targets, []string{host}, nil)
+			if c.prefixes {
+				a.ServiceOptions.PathPrefixes = []string{"/", "/app", "/app/v2"}
+			}
 			if c.shortTT {
 				a.TargetOptions.ResponseTimeout = time.Second
 			}
@@ -279,6 +287,9 @@ func c03Scenario(c c03cfg) *Scenario {
 				plan = "delay=" + (d + 500*time.Millisecond).String()
 			}
 			spec := ReqSpec{ID: fmt.Sprintf("in%d-%s", i, k), Host: host, Plan: plan}
+			if c.prefixes {
+				spec.Path = []string{"/app/x", "/app/v2/x", "/x"}[i%3]
+			}
 			if k == "upgrade-ka" {
 				spec.Upgrade, spec.UpgradeConn = true, "keep-alive, Upgrade"
 			}
@@ -338,6 +349,9 @@ func c03Scenario(c c03cfg) *Scenario {
 		for i, k := range c.late {
 			wg.Add(1)
 			spec := ReqSpec{ID: fmt.Sprintf("late%d-%s", i, k), Host: host}
+			if c.prefixes {
+				spec.Path = []string{"/x", "/app/v2/x", "/app/x"}[i%3]
+			}
 			if k == "long" {
 				spec.Plan = "delay=3s"
 			}
@@ -354,6 +368,10 @@ func c03Scenario(c c03cfg) *Scenario {
 		time.Sleep(4 * time.Second)
 		if c.cmd == "redeploy" {
 			w.Do(ReqSpec{ID: "final", Host: host})
+			if c.prefixes {
+				w.Do(ReqSpec{ID: "final-app", Host: host, Path: "/app/x"})
+				w.Do(ReqSpec{ID: "final-v2", Host: host, Path: "/app/v2/x"})
+			}
 		}
 	}
 	sc.Check = func(w *World) []Violation {
@@ -407,6 +425,8 @@ func c03Scenario(c c03cfg) *Scenario {
 				what := "request"
 				if strings.HasPrefix(sp.id, "held") {
 					what = "held-request" // held by a pause that was in force long before the command began
+				} else if r := reqByID[sp.id]; r != nil && r.StartSeq > cmd.EndSeq {
+					what = "request-issued-after-return" // it cannot have resolved the service, or passed the gate, before the command took effect
 				}
 				vs = append(vs, Violation{"C03", fmt.Sprintf("Q2 %s %s-sent-to-drained-target-after-return", c.cmd, what), fmt.Sprintf("request %s reached drained target %s at %v, after %s returned at %v", sp.id, sp.target, sp.startAt, cmd.Name, cmd.End)})
 			}
